@@ -85,6 +85,18 @@ Proof.
   - intros r' Hr'. apply mix_monotone_r; auto; tauto.
 Qed.
 
+(* for EVERY mix ratio the entry lies between the fuzzy intersection and the fuzzy union of the two directed strengths,
+   and is exactly their convex combination with weight r; it equals both iff one strength is 0/1-degenerate *)
+Lemma mix_between r a b : 0 <= r <= 1 -> 0 <= a <= 1 -> 0 <= b <= 1 ->
+  a * b <= Rmix r a b <= a + b - a * b /\ Rmix r a b = r * Rmix 1 a b + (1 - r) * Rmix 0 a b.
+Proof. intros Hr Ha Hb. rewrite !Rmix_eq. assert (0 <= a + b - 2 * (a * b)) by nra. repeat split; try nra. Qed.
+
+Theorem graph_between : forall (A : nat -> nat -> R) r i j,
+  strengths01 A -> 0 <= r <= 1 ->
+    A i j * A j i <= Rgraphf r A i j <= A i j + A j i - A i j * A j i /\
+    Rgraphf r A i j = r * Rgraphf 1 A i j + (1 - r) * Rgraphf 0 A i j.
+Proof. intros A r i j H01 Hr. unfold Rgraphf, graphf. fold Rmix. apply mix_between; auto. Qed.
+
 (* ---- support: an entry of the assembled matrix is non-zero only for a listed neighbour -------- *)
 Definition Rlookup : coo RNum -> nat -> nat -> R := lookup RNum.
 Definition Rcoo_of_rows : nat -> list (list (Z * R)) -> coo RNum := coo_of_rows RNum.
